@@ -88,7 +88,12 @@ Definition concretize (v256 : bool) (p : srv_params) (prev : bytes) (sym : N) (v
   | 7 => (chal (bs "x=junk"), v)
   | 8 => (Reply 235 (bs "2.7.0 ok"), v)
   | 9 => (Reply 535 (bs "5.7.8 no"), v)
-  | 11 => (chal (v_lastfinal v), v)     (* the valid server-final of an EARLIER exchange of this dialogue, resent *)
+  | 11 => (chal (v_lastfinal v), v)
+  (* server-first whose r= is a (proper) prefix of the client nonce / the client nonce exactly, no server part *)
+  | 12 => let m := bs "r=" ++ tail in (chal m, sent_first v m)
+  | 13 => let m := bs "r=" ++ firstn 1 (v_cn v) ++ tail in (chal m, sent_first v m)
+  | 14 => let m := bs "r=" ++ removelast (v_cn v) ++ tail in (chal m, sent_first v m)
+  | 15 => let m := bs "r=" ++ v_cn v ++ tail in (chal m, sent_first v m)     (* the valid server-final of an EARLIER exchange of this dialogue, resent *)
   | _ => (chal prev, v)
   end.
 
@@ -194,6 +199,24 @@ Definition run_auth (cfg : scram_cfg) (d : mech_desc) (lad : bool) (script : lis
   | MCram u s => obs_of (auth (cram_mech hmac_md5 u s) lad false tt script)
   | MXoauth2 u t => obs_of (auth (xoauth2_mech u t) lad false tt script)
   | MScram v256 id tab rands => obs_of (scram_run v256 cfg (table_oracle tab) id lad (ss_zero, rands) script)
+  end.
+
+(* several exchanges on the SAME Auth value (one reply script per exchange, each on a new connection): the mechanism
+   state left by one call of Auth is the state the next call starts from *)
+Fixpoint auth_seq {S} (m : mech S) (lad : bool) (s : S) (scripts : list (list reply)) : list run_obs :=
+  match scripts with
+  | [] => []
+  | sc :: rest => let f := auth m lad false s sc in obs_of f :: auth_seq m lad (f_state f) rest
+  end.
+
+Definition run_auth_seq (cfg : scram_cfg) (d : mech_desc) (lad : bool) (scripts : list (list reply)) : list run_obs :=
+  match d with
+  | MPlain a si => auth_seq (plain_mech a si) lad tt scripts
+  | MLogin a si => auth_seq (login_mech a si) lad 0 scripts
+  | MCram u s => auth_seq (cram_mech hmac_md5 u s) lad tt scripts
+  | MXoauth2 u t => auth_seq (xoauth2_mech u t) lad tt scripts
+  | MScram v256 id tab rands =>
+      auth_seq (scram_mech (hash_of v256) (hmac_of v256) (hsize_of v256) (table_oracle tab) cfg id) lad (ss_zero, rands) scripts
   end.
 
 (* the configuration read from the working tree (T1) *)
